@@ -9,7 +9,28 @@ pub struct C09;
 
 pub const BUDGETS: &[usize] = &[1, 2, 3, 4, 5, 10, 11, 30];
 
+/// v4: a directive whose amount stands behind an assertion that is false for good, false only once a forward label is
+/// known, or true - in a program that is otherwise stable after one or two passes. Whatever the budget, a false
+/// assertion must fail the run; a true one must give the same output for every budget that succeeds.
+pub fn gen_asserted_directive(t: &mut Tape) -> Job {
+    let mut s = String::new();
+    for k in 0..t.draw(4) {
+        s.push_str(&format!("#d8 {}\n", k + 1));
+    }
+    let cond = *t.pick(&["1 == 2", "fwdq < 1", "fwdq > 1", "$ > 100", "fwdq == 0", "kq != kq", "fwdq - fwdq != 0"]);
+    let amount = *t.pick(&["0", "1", "4", "8"]);
+    let dir = *t.pick(&["#res", "#align", "#addr", "#res"]);
+    let amount = if dir == "#addr" { "0x20" } else if dir == "#align" && amount == "0" { "8" } else { amount };
+    s.push_str("kq = 3\n");
+    s.push_str(&format!("{} {{ assert({}), {} }}\n", dir, cond, amount));
+    s.push_str("#d8 0xbb\nfwdq:\n#d8 fwdq`8\n");
+    Job { origin: "asserted-directive".into(), files: vec![("main.asm".into(), s.into_bytes())], root: "main.asm".into(), generated: true }
+}
+
 pub fn gen_job9(t: &mut Tape) -> Job {
+    if crate::engine::gen_version() >= 4 && t.chance(1, 10) {
+        return gen_asserted_directive(t);
+    }
     if t.chance(1, 2) {
         let (prog, _) = crate::props::c02::gen_cascade(t, 22);
         let (src, _) = render(&prog);
@@ -26,7 +47,7 @@ impl Property for C09 {
     fn rule(&self) -> String {
         "each case = one job (cascading generated program, size-static generated program, corpus program incl. asm blocks and #assert, or token-mutated corpus program) \
          assembled under budgets {1,2,3,4,5,10,11,30}. Oracle: the set S of succeeding budgets is upward closed, all members of S have identical bits and symbols, and \
-         iterations_taken <= budget for each member. Non-trivial = the smallest succeeding budget is >= 3, or the program contains an asm block or an assertion and succeeds \
+         iterations_taken <= budget for each member. (v4) one job in ten is a short program with `#res / #align / #addr { assert(C), n }` where C is false for good, false once a forward label is known, or true. Non-trivial = the smallest succeeding budget is >= 3, or the program contains an asm block or an assertion and succeeds \
          somewhere; distinct by hash of the file set."
             .to_string()
     }
